@@ -258,8 +258,9 @@ func runLeak(line, tp, tt string) core.Outcome {
 	}
 	cls := "history-dependent-output"
 	if orderChanged && orderOptRe.MatchString(tp) {
-		// narrow known class: the prior text carries an `order` global option and the
-		// process-wide directive order is observably different afterwards
+		// the defect repaired by 1ea4f8f (kept as a name for its regression): the prior text
+		// carries an `order` global option and the process-wide directive order is observably
+		// different afterwards
 		cls = "history-dependent-output:order-option-persists"
 	}
 	o.Tags = append(o.Tags, "leak:DEPENDENT")
